@@ -75,6 +75,13 @@ def svars(name, n):
 def mk_stream(al, src):
   """A fresh Stream for a source description."""
   els = [S.to_sym(t) for t in src.get("fin", src.get("cyc"))]
+  via = src.get("via")                  # the Stream wraps an itertools / builtin object instead of a list
+  if via in ("it_repeat", "stream_of_repeat"):
+    return al.Stream(it.repeat(S.to_sym(src["v"]), len(src["fin"])))
+  if via == "al_repeat":
+    return al.repeat(S.to_sym(src["v"]), len(src["fin"]))
+  if via:
+    return al.Stream(mk_exotic(al, via, els))
   if "fin" in src:
     return al.Stream(list(els))
   if len(els) == 1:
@@ -96,7 +103,60 @@ def mk_iterable(al, kind, src):
     return tuple(els)
   if kind == "gen":
     return (e for e in els)
+  return mk_exotic(al, kind, els)
+
+
+# operand kinds built from itertools / lazy_itertools / builtin objects with their own length semantics;
+# the model sees each of them as what it is: an iterable with its finite (or endless) sequence of items
+EXOTIC_REPEAT = ["it_repeat", "al_repeat", "stream_of_repeat"]
+EXOTIC_OTHER = ["islice", "takewhile", "chain", "map", "deque", "dictkeys", "dictvalues", "al_chain", "filter"]
+EXOTIC_INT = ["range", "array"]           # their items are the ints 0..n-1
+
+
+def mk_exotic(al, kind, els):
+  import array
+  n = len(els)
+  if kind in EXOTIC_REPEAT:               # finite repeat: n copies of ONE value (els are all the same; n may be 0)
+    raise ValueError("repeat kinds are built by mk_repeat")
+  if kind == "islice":
+    return it.islice(it.cycle(els), n) if n else it.islice(iter(()), 0)
+  if kind == "takewhile":
+    return it.takewhile(lambda v: True, list(els))
+  if kind == "chain":
+    return it.chain(els[:1], els[1:])
+  if kind == "al_chain":
+    return al.chain(els[:1], els[1:])
+  if kind == "map":
+    return map(lambda v: v, list(els))
+  if kind == "filter":
+    return filter(lambda v: True, list(els))
+  if kind == "deque":
+    return collections.deque(els)
+  if kind == "dictkeys":
+    return dict.fromkeys(els).keys()
+  if kind == "dictvalues":
+    return dict(enumerate(els)).values()
+  if kind == "range":
+    return range(n)
+  if kind == "array":
+    return array.array("l", range(n))
   raise ValueError(kind)
+
+
+def mk_repeat(al, kind, v, n):
+  """n copies of v (n None = endless) through itertools.repeat / audiolazy.repeat."""
+  args = (v,) if n is None else (v, n)
+  if kind == "it_repeat":
+    return it.repeat(*args)
+  if kind == "al_repeat":
+    return al.repeat(*args)
+  if kind == "stream_of_repeat":
+    return al.Stream(it.repeat(*args))
+  raise ValueError(kind)
+
+
+def repeat_src(v, n):
+  return {"cyc": [v]} if n is None else {"fin": [v] * n}
 
 
 def observe_stream(res, al, cap=CAP):
@@ -150,6 +210,8 @@ def operand_obj(al, o):
     return Sym(o["t"])
   if k == "int":
     return o["t"][1]
+  if k in EXOTIC_REPEAT:
+    return mk_repeat(al, k, S.to_sym(o["v"]), o["n"])
   return mk_iterable(al, k, o["src"])
 
 
@@ -230,6 +292,8 @@ def gen_bin(tier, rng):
         for mode in modes:
           yield {"dname": dname, "mode": mode, "self": ss, "others": [sc],
                  "tags": ["binary", "rev" if rev else "plain", "scalar-" + sc["kind"], mode]}
+  for c in gen_bin_exotic(tier):
+    yield c
   # edge stream: ignored class, unknown dunders, wrong number of arguments
   for dname in ("__add__", "__radd__", "__lt__", "__rmatmul__", "__pow__"):
     yield {"dname": dname, "mode": "direct", "self": SELF_SRCS[2], "others": [{"kind": "ignored"}], "tags": ["ignored"]}
@@ -240,6 +304,78 @@ def gen_bin(tier, rng):
     yield {"dname": dname, "mode": "direct", "self": SELF_SRCS[2], "others": [{"kind": "int", "t": ["c", 1]}], "tags": ["arity"]}
   for dname in ("__div__", "__rdiv__", "__divmod__", "__rdivmod__", "__cmp__", "__rlt__", "__rneg__", "__iadd__", "__rrrshift__"):
     yield {"dname": dname, "mode": "direct", "self": SELF_SRCS[2], "others": [{"kind": "int", "t": ["c", 1]}], "tags": ["unknown-dunder"]}
+
+
+EXOTIC_DUNDERS = ["__add__", "__radd__", "__sub__", "__rsub__", "__mul__", "__rpow__", "__lt__", "__eq__",
+                  "__rshift__", "__rrshift__", "__rand__", "__matmul__"]
+
+
+def int_src(n):
+  return {"fin": [["c", i] for i in range(n)]}
+
+
+def gen_bin_exotic(tier):
+  """Operands (and selves) whose iterator is an itertools / lazy_itertools / builtin object."""
+  binary = sorted(d for d, v in DUNDERS.items() if v[2] == 2)
+  v = ["v", "r", 0]
+  selfs = SELF_SRCS if tier != "quick" else [SELF_SRCS[0], SELF_SRCS[2], SELF_SRCS[3], SELF_SRCS[4]]
+  # finite / endless repeat(v, n) as the OTHER operand of every binary dunder
+  for dname in binary:
+    func, rev, _ = DUNDERS[dname]
+    for ss in selfs:
+      for n in (0, 1, 2, 3, None):
+        for kind in EXOTIC_REPEAT:
+          modes = ["direct"]
+          if kind == "it_repeat" or not rev:
+            modes.append("syntax")
+          if tier == "quick" and kind != "it_repeat":
+            modes = modes[-1:]
+          for mode in modes:
+            ln = len(ss["fin"]) if "fin" in ss else None
+            rel = ("endless" if n is None else "finite-cuts-endless" if ln is None else
+                   "equal" if n == ln else "shorter" if n < ln else "longer")
+            yield {"dname": dname, "mode": mode, "self": ss,
+                   "others": [{"kind": kind, "v": v, "n": n, "src": repeat_src(v, n)}],
+                   "tags": ["binary", "rev" if rev else "plain", kind, mode, rel, "exotic"]}
+  # ... and as the stream itself, against a list / a scalar / another repeat
+  for dname in binary:
+    func, rev, _ = DUNDERS[dname]
+    for via in ("it_repeat", "al_repeat"):
+      for n in (0, 2, 3):
+        ss = {"fin": [v] * n, "via": via, "v": v}
+        others = [{"kind": "list", "src": {"fin": svars("y", m)}} for m in (1, 4)]
+        others.append({"kind": "sym", "t": ["v", "k", 0]})
+        others.append({"kind": "it_repeat", "v": ["v", "q", 0], "n": 1, "src": repeat_src(["v", "q", 0], 1)})
+        for o in others:
+          yield {"dname": dname, "mode": "direct", "self": ss, "others": [o],
+                 "tags": ["binary", "rev" if rev else "plain", "self-" + via, o["kind"], "exotic"]}
+  # the other itertools / builtin objects, on a representative subset of dunders, on either side
+  lens = (0, 1, 3) if tier == "quick" else (0, 1, 2, 3, 4)
+  for dname in EXOTIC_DUNDERS:
+    func, rev, _ = DUNDERS[dname]
+    for kind in EXOTIC_OTHER + EXOTIC_INT + ["cycle"]:
+      for ss in (SELF_SRCS[0], SELF_SRCS[2], SELF_SRCS[4]):
+        for m in lens:
+          if kind == "cycle":
+            if m == 0:
+              continue
+            src = {"cyc": svars("y", m)}
+          else:
+            src = int_src(m) if kind in EXOTIC_INT else {"fin": svars("y", m)}
+          modes = ["direct"]
+          if not (rev and kind in ("dictkeys", "al_chain")):   # dict views have their own set operators; al.chain is a Stream
+            modes.append("syntax")
+          for mode in modes:
+            yield {"dname": dname, "mode": mode, "self": ss,
+                   "others": [{"kind": "gen" if kind == "cycle" else kind, "src": src}],
+                   "tags": ["binary", "rev" if rev else "plain", kind, mode, "exotic"]}
+      if kind != "cycle" and not (kind in EXOTIC_INT and func.strip("_") in MIRROR):
+        # (an int item on the left of a comparison would run the symbolic element's mirrored dunder)
+        for m in lens:                                          # the same object inside the Stream itself
+          src = dict(int_src(m) if kind in EXOTIC_INT else {"fin": svars("x", m)}, via=kind)
+          yield {"dname": dname, "mode": "direct", "self": src,
+                 "others": [{"kind": "list", "src": {"fin": svars("y", 2)}}],
+                 "tags": ["binary", "rev" if rev else "plain", "self-" + kind, "exotic"]}
 
 
 def run_bin(c):
@@ -261,7 +397,7 @@ def lit_bin(c, o):
 def nontrivial_bin(c, o):
   if not o.get("items"):
     return False
-  if c["others"] and c["others"][0]["kind"] in ("stream", "list", "tuple", "gen"):
+  if c["others"] and "src" in c["others"][0]:
     a, b = c["self"], c["others"][0]["src"]
     return ("cyc" in a) or ("cyc" in b) or len(a["fin"]) != len(b["fin"])
   return True
@@ -273,7 +409,15 @@ BIN_DUNDERS = sorted(d for d, v in DUNDERS.items() if v[2] == 2)
 UN_DUNDERS = sorted(d for d, v in DUNDERS.items() if v[2] == 1)
 
 
-def rand_src(rng, name, allow_cyc=True):
+def rand_src(rng, name, allow_cyc=True, allow_via=False):
+  if allow_via and rng.random() < 0.3:
+    via = rng.choice(["it_repeat", "al_repeat", "it_repeat", "islice", "takewhile", "chain", "map", "deque",
+                      "dictvalues", "filter"])
+    n = rng.choice([0, 1, 2, 3, 4])
+    if via in EXOTIC_REPEAT:
+      v = ["v", name, 0]
+      return {"fin": [v] * n, "via": via, "v": v}
+    return {"fin": svars(name, n), "via": via}
   if allow_cyc and rng.random() < 0.25:
     return {"cyc": svars(name, rng.randrange(1, 4))}
   return {"fin": svars(name, rng.choice([0, 1, 2, 3, 3, 4, 5, 6]))}
@@ -284,7 +428,7 @@ def rand_tree(rng, depth, counter):
     counter[0] += 1
     return "s%d" % counter[0]
   if depth == 0 or rng.random() < 0.12:
-    return {"n": "leaf", "src": rand_src(rng, fresh())}
+    return {"n": "leaf", "src": rand_src(rng, fresh(), allow_via=True)}
   r = rng.random()
   if r < 0.12:
     return {"n": "un", "d": rng.choice(UN_DUNDERS), "mode": rng.choice(["direct", "syntax"]),
@@ -313,6 +457,14 @@ def rand_tree(rng, depth, counter):
     mode = "direct" if rev else rng.choice(["direct", "syntax"])
     return {"n": "bin", "d": d, "mode": mode, "e": e, "o": rand_tree(rng, depth - 1, counter)}
   if k < 0.75:
+    if rng.random() < 0.35:          # an itertools / builtin object as the operand
+      kind = rng.choice(EXOTIC_REPEAT + ["it_repeat"] + EXOTIC_OTHER)
+      mode = "direct" if (rev and kind in ("dictkeys", "al_chain", "al_repeat", "stream_of_repeat")) \
+             else rng.choice(["direct", "syntax"])
+      if kind in EXOTIC_REPEAT:
+        v, n = ["v", fresh(), 0], rng.choice([0, 1, 2, 3, None])
+        return {"n": "bini", "d": d, "mode": mode, "kind": kind, "v": v, "rn": n, "src": repeat_src(v, n), "e": e}
+      return {"n": "bini", "d": d, "mode": mode, "kind": kind, "src": {"fin": svars(fresh(), rng.randrange(0, 5))}, "e": e}
     kind = rng.choice(["list", "tuple", "gen"])
     src = rand_src(rng, fresh(), allow_cyc=(kind == "gen"))
     modes = ["direct", "syntax"] + (["mirror"] if base in MIRROR else [])
@@ -346,6 +498,8 @@ def build_tree(al, t):
   if n == "bin":
     return call_dunder(al, t["d"], t["mode"], e, [build_tree(al, t["o"])])
   if n == "bini":
+    if t["kind"] in EXOTIC_REPEAT:
+      return call_dunder(al, t["d"], t["mode"], e, [mk_repeat(al, t["kind"], S.to_sym(t["v"]), t["rn"])])
     return call_dunder(al, t["d"], t["mode"], e, [mk_iterable(al, t["kind"], t["src"])])
   if n == "bins":
     return call_dunder(al, t["d"], t["mode"], e, [S.to_sym(t["c"])])
